@@ -124,6 +124,18 @@ where
             do_op::<F>(ev, lay, "rem_int_r", a, b);
         }
     }
+    // pairs solved from the divisor side (quotient on / beside a range bound for hostile divisors); separate PRNG stream
+    for (i, (a, b)) in div_bound_block(lay).into_iter().enumerate() {
+        do_op::<F>(ev, lay, "rem", a, b);
+        if i % 4 == 0 {
+            do_op::<F>(ev, lay, "rem_r", a, b);
+        }
+    }
+    let mut rng2 = args.rng_for(lay, 107);
+    for _ in 0..args.n / 4 {
+        let (a, b) = gen_div_pair(&mut rng2, lay);
+        do_op::<F>(ev, lay, "rem", a, b);
+    }
 }
 
 fn main() {
